@@ -42,16 +42,80 @@ func (c *Ctx) ruleNoWriteAtSwitch() {
 		"Parent": true, "Children": true, "HasExplicitContext": true, "Annotation": true, "BodyCoords": true}
 	for _, rootName := range []string{"JApiCore.processInclude", "JApiCore.isScanningFinished"} {
 		root := c.fn("core", rootName)
+		var region []ast.Node // when the switch is not a function of its own: the statements that make it
+		if root == nil && rootName == "JApiCore.isScanningFinished" {
+			// inlined: the switch back is the run of statements from the Pop of the scanner stack to the end of its block
+			pop := c.P.LookupFunc("scanner", "Stack.Pop")
+			for _, g := range c.libFns() {
+				if g.Pkg.Types.Name() != "core" || pop == nil {
+					continue
+				}
+				inspectWithStack(g.Decl.Body, func(nd ast.Node, stack []ast.Node) bool {
+					blk, isBlk := nd.(*ast.BlockStmt)
+					if !isBlk {
+						return true
+					}
+					for i, st := range blk.List {
+						if len(callsIn(g.Pkg, st, pop)) > 0 {
+							if _, nested := st.(*ast.BlockStmt); nested {
+								continue
+							}
+							direct := true
+							ast.Inspect(st, func(m ast.Node) bool {
+								if b, ok := m.(*ast.BlockStmt); ok && len(callsIn(g.Pkg, b, pop)) > 0 {
+									direct = false
+								}
+								return true
+							})
+							if direct {
+								root = g
+								for _, rest := range blk.List[i:] {
+									region = append(region, rest)
+								}
+							}
+						}
+					}
+					return true
+				})
+			}
+		}
 		if root == nil {
 			r.Undecided("C09-NO-WRITE-AT-SWITCH", rootName, "function not found", "")
 			continue
 		}
 		bad := ""
 		n := 0
-		for _, f := range c.reachableInPkg(root) {
+		type unit struct {
+			f    *Fn
+			body ast.Node
+		}
+		var units []unit
+		if region == nil {
+			for _, f := range c.reachableInPkg(root) {
+				units = append(units, unit{f, f.Decl.Body})
+			}
+		} else {
+			seenFn := map[*types.Func]bool{}
+			for _, st := range region {
+				units = append(units, unit{root, st})
+				ast.Inspect(st, func(m ast.Node) bool {
+					if call, ok := m.(*ast.CallExpr); ok {
+						if g := c.fnOf(callee(root.Pkg, call)); g != nil && g.Pkg == root.Pkg && !seenFn[g.Obj] {
+							seenFn[g.Obj] = true
+							for _, h := range c.reachableInPkg(g) {
+								units = append(units, unit{h, h.Decl.Body})
+							}
+						}
+					}
+					return true
+				})
+			}
+		}
+		for _, u := range units {
+			f := u.f
 			n++
 			pk := f.Pkg
-			ast.Inspect(f.Decl.Body, func(nd ast.Node) bool {
+			ast.Inspect(u.body, func(nd ast.Node) bool {
 				switch x := nd.(type) {
 				case *ast.AssignStmt:
 					for _, l := range x.Lhs {
